@@ -1263,7 +1263,7 @@ class MindsDBParser(Parser):
         query = p.query
         query.parentheses = True
         if hasattr(p, 'id'):
-            query.alias = Identifier(parts=[p.id])
+            query.alias = Identifier(parts=[p.id.strip('`')])
         if hasattr(p, 'column_list'):
             if not isinstance(query, Select):
                 raise ParsingException(f'Column list is allowed only for a sub-select: {query}')
@@ -1358,7 +1358,7 @@ class MindsDBParser(Parser):
        'id')
     def column_list(self, p):
         column_list = getattr(p, 'column_list', [])
-        column_list.append(p.id)
+        column_list.append(p.id.strip('`'))
         return column_list
 
     # case
